@@ -47,7 +47,10 @@ from io import BytesIO
 
 from vlib import env
 
-THEOREMS = []  # filled in below once Props/C39.lean exists
+THEOREMS = [
+    "apply_mkhunks", "parse_diff_text", "diff_text_applies", "serialise_parse_hunks", "diff_reserialises",
+    "no_newline_marker_roundtrip", "stats_balance_partial", "apply_ok_iff", "apply_conflict_on_mismatch",
+]
 RUST = ("patch-py",)
 RULE = ("all pairs of line lists over {a,b,c} up to a length x context sizes {0,1,2,3}, random longer texts "
         "(edited copies; last/middle lines without newline; CR bytes), two matchers; perturbations of the old text "
